@@ -41,7 +41,8 @@ void token_clean(int off)
    int e = nondet_int();
    __CPROVER_assume(off <= e && e <= MAXLEN && gp_line[e] == '\0');
    __CPROVER_assume(__CPROVER_forall { int j; (0 <= j && j <= MAXLEN) ==> ((off <= j && j < e) ==> gp_line[j] != '\0') });
-   __CPROVER_assert(__CPROVER_forall { int j; (0 <= j && j <= MAXLEN) ==> ((off <= j && j < e) ==> !IS_BREAK(gp_line[j])) },
+   /* "for every position of the token", stated at the ghost index g_k (loop invariants can only carry that form) */
+   __CPROVER_assert((off <= g_k && g_k < e) ==> !IS_BREAK(gp_line[g_k]),
                     "token handed to a comparison/conversion routine contains no blank, line end or comment character");
 }
 unsigned long nondet_ul(void);
@@ -118,9 +119,9 @@ void h_line(void)
  * spxSnprintf stub. */
 int w_string(char* string, const unsigned char* mb, const unsigned char* mi, const unsigned char* mr)
 __CPROVER_requires(0 <= g_srclen && g_srclen <= 2 * SPX_SET_MAX_LINE_LEN && __CPROVER_is_fresh(string, g_srclen + 1) && string[g_srclen] == '\0')
-__CPROVER_requires(0 <= g_len && g_len <= SPX_SET_MAX_LINE_LEN - 2 - SLACK)
+__CPROVER_requires(0 <= g_len && g_len <= SPX_SET_MAX_LINE_LEN - 2 - SLACK && 0 <= g_k && g_k <= MAXLEN)
 __CPROVER_requires(TABLES_FRESH)
-__CPROVER_assigns(GHOST_WRITES, gp_src)
+__CPROVER_assigns(GHOST_WRITES, gp_src, v_g)
 DISPATCH_ENSURES
 ;
 void h_string(void)
